@@ -112,6 +112,11 @@ def random_config(rng, allow_virt=True, allow_lpae=True, archs=(6, 7, 7, 7, 5), 
         if rng.random() < 0.06:
             cfg['number_of_mpu_regions'] = rng.choice([0, 1, 2, 32])          # unusual MPU sizes of the configuration file
         cfg.update(impdef_switches(rng))
+        if rng.random() < 0.3:
+            # reset values for registers the shipped file does not mention (a configuration file may name any register class; the others reset to 0):
+            # two files need not have the same SET of keys
+            names = rng.sample(['FPEXC', 'HDCR', 'PMCR', 'SDER', 'SUNAVCR', 'TEECR', 'FCSEIDR', 'JMCR', 'DBGDIDR'], rng.choice([1, 2, 3]))
+            cfg['reset_values'] = {n_: hex(rng.getrandbits(32)) for n_ in names}
     return cfg
 
 
